@@ -25,6 +25,7 @@ var propRunners = map[string]func(c *Checker){
 	"C02": runC02,
 	"C08": runC08,
 	"C09": runC09,
+	"C12": runC12,
 }
 
 func runProperty(P *Program, prop, tier, evid string) int {
